@@ -30,3 +30,8 @@ WRAP uint32_t w_rp_state(const RP* m, uint32_t i) { return m->states_[i]; }
 // state injection: the accumulated purge offset of a sketch (what earlier purges left behind)
 WRAP void w_fi_set_offset(FI* s, uint64_t off) { s->offset = off; }
 WRAP uint64_t w_fi_offset(const FI* s) { return s->offset; }
+// bytes round trip of a sketch: total weight and maximum error of the restored sketch
+WRAP int w_fi_roundtrip(const FI* s, uint64_t* total, uint64_t* maxerr) {
+  try { auto bytes = s->serialize(); FI r = FI::deserialize(bytes.data(), bytes.size()); *total = r.get_total_weight(); *maxerr = r.get_maximum_error(); return 0; } catch (...) { return 1; }
+}
+WRAP void w_fi_set_total(FI* s, uint64_t total) { s->total_weight = total; }
